@@ -146,6 +146,27 @@ def run(check, ctx):
     check.ob("K-pw", "K-pw|v15.decode.args", not wrong, repo.module(V15).path, fn15.lineno,
              extracted="; ".join(wrong[:3]) if wrong else "12 (sentinel kind, expected length) combinations: the caller's expected_pt_len and sentinel (or the empty string when it cannot be passed in band) reach pkcs1_decode",
              expected="the plaintext-length expectation is enforced by the constant-time decoder on every path (a correctly padded message of another length must give the sentinel)")
+    # ---- k, the length of the modulus in octets ------------------------------------------------------------
+    RSA = "Crypto.PublicKey.RSA"
+    rmod = repo.module(RSA)
+    wrong = []
+    for bits in (1023, 1024, 1025, 1031, 1032, 1033, 2047, 2049):
+        nval = (1 << (bits - 1)) + 12345
+        it3 = Interp(repo, max_depth=3)
+        st3 = State()
+        me3 = it3.new_obj(st3, rmod, repo.cls(rmod, "RsaKey"), havoc=False)
+        st3.heap[me3.ident].update({"_n": nval, "_e": 65537})
+        out = {}
+        for meth in ("size_in_bits", "size_in_bytes"):
+            res = it3.run(rmod, repo.func(rmod, "RsaKey." + meth), {}, self_obj=me3, state=st3)
+            r = res.returns()
+            out[meth] = r[0].value if len(r) == 1 else None
+        if out["size_in_bits"] != bits or out["size_in_bytes"] != (bits + 7) // 8:
+            wrong.append("%d-bit modulus: size_in_bits() = %r, size_in_bytes() = %r (k = %d)" % (bits, out["size_in_bits"], out["size_in_bytes"], (bits + 7) // 8))
+    fnk = repo.func(rmod, "RsaKey.size_in_bytes")
+    check.ob("K-pw", "K-pw|rsa.k", not wrong, rmod.path, fnk.lineno,
+             extracted="; ".join(wrong[:3]) if wrong else "8 modulus sizes around multiples of 8: k = ceil(modBits / 8)",
+             expected="RFC 8017: k is the length in octets of the modulus (rounded up); message limits and ciphertext length are stated in k")
     # ---- MGF1 ------------------------------------------------------------------------------------
     calls = {}
 
